@@ -143,6 +143,12 @@ int main (int argc, char *argv[]) {
     char *base_name = basename(arguments.args[0]);
     if(strlen(base_name) > 4 && strncmp(base_name + strlen(base_name)-4, ".zck", 4) == 0) {
         base_name[strlen(base_name)-4] = '\0';
+    } else if(!arguments.dict && !arguments.header && !arguments.std_out) {
+        /* The output would get the name of the input and be opened with
+         * O_TRUNC: in the input's own directory that destroys the input */
+        LOG_ERROR("%s doesn't end in .zck: unable to derive the name of the "
+                  "output (use --stdout)\n", arguments.args[0]);
+        exit(1);
     }
     printf("%s\n", base_name);
     char *out_name = NULL;
